@@ -73,7 +73,7 @@ def run(ctx):
         line, m = gen.gen_e2e(sub, 800000 + k, variant=variant, maxit_max=12, r=sub.rint(2, 4))
         e2e.append(line)
         metas[800000 + k] = m
-    res2 = ctx.component('K-INIT', e2e)
+    res2 = ctx.component('K-INIT', e2e, keys={'status', 'start'})
     if res2:
         for c, m in metas.items():
             tr = res2['impl'].get('E %d' % c)
